@@ -25,8 +25,19 @@ def gen(rng):
             ops.append(f"pub {cur} t/a q=1 pid={rng.choice([1, 2, 3, 4])} tag=m{tag}")
         elif r < 0.93:
             # pipelining: the client stops reading, sends several packets, then reads all the answers at once
+            long_run = rng.random() < 0.35
+            if long_run:
+                # a long run (10-14) of retransmissions of ONE id that is open: the broker's write queue (8 slots) is full while
+                # further PUBRECs are produced — every retransmission is owed its PUBREC, none may get lost (seed C04-5). Only
+                # retransmissions: nothing is forwarded, so it does not matter when the broker gets round to the later packets.
+                tag += 1
+                ops.append(f"pub {cur} t/a q=2 pid=9 d=0 tag=m{tag}")
+                ops.append("ack s puback all"); ops.append("ack s pubrec all"); ops.append("ack s pubcomp all")
             ops.append(f"pause {cur}")
-            for _ in range(rng.randint(2, 4)):
+            for _ in range(rng.randint(10, 14) if long_run else rng.randint(2, 4)):
+                if long_run:
+                    ops.append(f"pub {cur} t/a q=2 pid=9 d=1 tag=m{tag}")
+                    continue
                 k = rng.random()
                 if k < 0.5:
                     ops.append(f"rel {cur} {rng.choice([1, 2, 3])}")
